@@ -2,6 +2,7 @@
 //! matching, replay files, evidence writer, exhaustive string/product enumeration helpers.
 pub mod refmodel;
 pub mod proc;
+pub mod zv;
 
 use std::collections::BTreeMap;
 use std::hash::{Hash, Hasher};
